@@ -963,6 +963,30 @@ func verifLenIsHeaderPlusLength(p *PathAttribute) bool {
 //@   claims post
 //@   ensures result != nil && int(result.Length) == len(*l)
 
+// Tunnel Encapsulation sub-TLVs built by the constructors: the Length they carry (what Len() and the attribute's
+// Length, hence the packers' budget, are computed from) is the length of the value their Serialize writes
+//@ props C04 C11
+//@ func NewTunnelEncapSubTLVUnknown
+//@   requires len(value) <= 65535
+//@   claims post
+//@   ensures result != nil && int(result.Length) == len(value)
+//@ func NewTunnelEncapSubTLVEncapsulation
+//@   requires len(cookie) <= 65000
+//@   claims post
+//@   ensures result != nil && int(result.Length) == 4 + len(cookie)
+//@ func NewTunnelEncapSubTLVProtocol
+//@   claims post
+//@   ensures result != nil && int(result.Length) == 2
+//@ func NewTunnelEncapSubTLVColor
+//@   claims post
+//@   ensures result != nil && int(result.Length) == 8
+//@ func NewTunnelEncapSubTLVUDPDestPort
+//@   claims post
+//@   ensures result != nil && int(result.Length) == 2
+//@ func NewTunnelEncapSubTLVEgressEndpoint
+//@   claims post
+//@   ensures result1 == nil ==> result0 != nil && int(result0.Length) == 6 + (address.Is4() ? 4 : 16)
+
 // EVPN I-PMSI route (type 9): what the encoder writes is what Len() announces - RD (8) and Ethernet tag (4), then the
 // extended community directly after them - and the decoder knows the route type its own encoder emits
 //@ props C04
